@@ -358,6 +358,18 @@ def run(prog: Program) -> Results:
             return "inherited"
         return "?" + first[:30]
 
+    # a scope is appended at its place even if an equal one is already in the chain: membership-based skipping changes which
+    # occurrence is innermost
+    for st in ast.walk(sfo.node):
+        if isinstance(st, ast.If) and any(isinstance(c, ast.Compare) and len(c.ops) == 1 and isinstance(c.ops[0], (ast.In, ast.NotIn))
+                                          and norm(c.comparators[0]) in (acc, f"tuple({acc})") for c in ast.walk(st.test)):
+            if any(isinstance(c, ast.Call) and isinstance(c.func, ast.Attribute) and norm(c.func.value) == acc and c.func.attr in ("append", "extend", "insert")
+                   for b in st.body + st.orelse for c in ast.walk(b)):
+                r5.instances += 1
+                r5.ob(False, {"scopes_for_owner": "append skipped by membership", "test": norm(st.test)})
+                res.add("R-C10-5", ("scopes_for_owner", "producer order"), sfo.loc(st),
+                        f"scopes_for_owner skips an append when `{norm(st.test)}`: a scope that already occurs further out keeps only its "
+                        f"outer position, so it no longer shadows the scopes between (innermost must come last)")
     order = []
     for seg in segs or []:
         k = origin(seg)
